@@ -3,7 +3,7 @@
    values to the masked points), and these views do not depend on what the masked points hold.  Only statements; proofs are
    [exact <lemma>] into Data/DataSet_facts.v (the model of data_set.py tied to the code by C05's correspondence). *)
 From Coq Require Import ZArith QArith Bool List.
-From PV Require Import Base.Outcome Data.DataSet Data.DataSet_facts.
+From PV Require Import Base.Outcome Data.DataSet Data.DataSet_facts gen.DataAccess_gen.
 Import ListNotations.
 Open Scope Z_scope.
 
@@ -14,6 +14,13 @@ Theorem C08_masked_values_never_reach_the_views :
   get_zs (mkDS fs zs1 m) (Some false) = get_zs (mkDS fs zs2 m) (Some false).
 Proof. exact masked_values_irrelevant. Qed.
 Print Assumptions C08_masked_values_never_reach_the_views.
+
+(* ... and every analysis function that receives a DataSet reads it only through those views (get_frequencies() / get_impedances()
+   without arguments), or hands it on to another such function: the table is regenerated from src/pyimpspec/analysis/**.py on every
+   run (tools/tr_dataaccess.py); any other access (masked=..., get_mask, private attributes) makes its entry false. *)
+Theorem C08_analyses_read_only_the_unmasked_views : forallb snd data_readers = true /\ data_readers <> [].
+Proof. split; [vm_compute; reflexivity|discriminate]. Qed.
+Print Assumptions C08_analyses_read_only_the_unmasked_views.
 
 (* non-vacuity: two spectra that differ on a masked point (index 1) satisfy the hypothesis *)
 Theorem C08_masked_values_example :
